@@ -11,8 +11,6 @@ import (
 	"context"
 	"errors"
 	"fmt"
-	"os"
-	"strings"
 	"sync"
 	"testing"
 	"time"
@@ -111,28 +109,6 @@ func (o Op) String() string {
 	return s
 }
 
-// ---- signatures of confirmed defects (excluded by construction only when listed as
-// "known" in known_findings.json) ------------------------------------------------------------
-
-const (
-	sigAddAfterClose = "add-after-close-not-rejected"          // Add ignores `closed`: an instance added once Close has begun is never closed
-	sigTryRmLoading  = "tryremove-on-loading-entry-nil-deref"  // TryRemove on an entry whose load is in flight dereferences the nil value
-	sigTryRmCloseErr = "tryremove-tryclose-error-wedges-entry" // TryRemove returns on a TryClose error without finishing the state change
-)
-
-func known(sig string) bool {
-	if vstat.KnownSignature(prop, sig) {
-		return true
-	}
-	// for builders' experiments outside the driver only
-	for _, s := range strings.Split(os.Getenv("VERIF_C16_ASSUME_KNOWN"), ",") {
-		if s == sig {
-			return true
-		}
-	}
-	return false
-}
-
 // ---- harness: model of instances + LoadFunc + Object ---------------------------------------
 
 type inst struct {
@@ -170,13 +146,12 @@ type harness struct {
 	tryNo       int
 	inflight    map[string]int
 	viol        []string
-	excluded    string
+	excluded    string // signature of a known finding excluded by construction (none at present)
 	results     []string
 	closeStartT int // first cache Close op started
 	closeDoneT  int // first cache Close op returned nil
 	closeOps    int
 	classes     map[string]bool
-	tainted     bool // stress: a known-defect panic corrupted the cache state; stop judging this iteration
 	loadsMain   int
 	rmTarget    map[int]*inst // RemoveSame ops: the instance passed
 	handed      []handed      // instances handed to callers
@@ -224,6 +199,11 @@ func (h *harness) newInst(id, origin string) *inst {
 // becameLive: invariant "at most one live instance per id at any time".
 func (h *harness) becameLiveLocked(x *inst, t int, how string) {
 	x.liveT = t
+	if x.closedT > 0 {
+		// free-running mode only: the Add that inserted x was overtaken - x has been removed and
+		// closed before its caller got to record the successful return; its interval is empty
+		return
+	}
 	for _, y := range h.insts {
 		if y != x && y.id == x.id && y.liveT > 0 && y.closedT == 0 {
 			h.violationLocked("two live instances of id %s: %s became live (%s, t%d) while %s (live since t%d) is not closed", x.id, x.name(), how, t, y.name(), y.liveT)
@@ -316,10 +296,6 @@ func (o *object) TryClose(time.Duration) (bool, error) {
 		verdict = h.c.Try[h.tryNo%n]
 	}
 	h.tryNo++
-	if verdict == tryClosedErr && h.opKind(op) == kTryRm && known(sigTryRmCloseErr) {
-		verdict = tryClosed // known defect excluded by construction
-		h.excluded = sigTryRmCloseErr
-	}
 	x.busyTry = verdict == tryBusy
 	h.mu.Unlock()
 	h.ctl.Log("try-start", x.name(), verdict, "")
